@@ -133,6 +133,32 @@ CHECKS["C20"] = dict(
          "reachable state including the fold; the real code's mlog_get_line for k=-2..257 and mlog_dump are compared after "
          "every message for counts 0..773 and across two folds of the counter.",
     note="The fold is reached through mlog_verif_set_count (hook); messages are identified by distinct format strings and arguments.")
+CHECKS["C16"] = dict(
+    engine="tlc+tracecheck+sweep", category="exploration", design_ref="DESIGN.md section 4/C16",
+    technique="TLA+ spec (Bits.tla): TLC proves algorithm = definition for all 16-bit words; TLC validates real results and a C "
+              "oracle against the definitions on structured 32/64-bit vectors (TraceBits); exhaustive 2^32 conformance sweep "
+              "against that oracle",
+    text="Exhaustive exploration of all 2^32 arguments of bitcnt/clz/ctz/ilog2 against an oracle that TLC has validated "
+         "against the TLA+ definitions on ~30000 structured and random vectors; 64-bit macros on all one-/two-bit patterns, "
+         "contiguous masks and random values, as compile-time constants and run-time values.",
+    note="Honest level (DESIGN section 4/C16): the TLA+ specification supplies the definition, the 16-bit algorithm proof and the "
+         "vectors; the 2^32 statement is a conformance sweep against a C transcription of the definitions.")
+CHECKS["C17"] = dict(
+    engine="tlc+tracecheck+sweep", category="exploration", design_ref="DESIGN.md section 4/C17",
+    technique="TLA+ spec (Rand31.tla): TLC checks Carta transcription = Park-Miller (Schrage) on ~295k structured states; TLC "
+              "validates real results and the 64-bit reference on vectors (TraceRand); exhaustive sweep of all 2^31-2 states",
+    text="All 2^31-2 states: returned value, updated seed and range compared with 16807*s mod (2^31-1) computed in 64 bits, "
+         "the reference itself being validated by TLC against the TLA+ definition on structured/trajectory/random vectors.",
+    note="As C16: exploration (exhaustive) with a TLC-validated oracle; full period is a number-theoretic consequence, not checked.")
+CHECKS["C18"] = dict(
+    engine="tlc+tracecheck", category=MC, design_ref="DESIGN.md section 4/C18",
+    technique="TLA+ spec (Hex.tla: Dump and the hex_get_byte machine with highest index read) checked with TLC on all strings "
+              "over a 9-symbol alphabet up to length 4/5 and structured arrays; the same domain (one longer) run on hex.c in "
+              "exactly sized heap buffers, every return value and *p validated by TLC against TraceHex.tla",
+    text="TLC checks RoundTrip, DumpShape and ParserSafe (range, termination bound, never past the NUL, stays at -1) on the "
+         "bounded domain; the real parser's complete return sequence and cursor after every call, and the real dump text, "
+         "are compared with the specification for ~66k strings, 570 arrays and random long strings with arbitrary bytes.",
+    note="Memory safety beyond the executed inputs is not proved (ASan observation on exact-size buffers).")
 NOT_YET = "check not built yet (work in progress; planned per DESIGN.md section 4)"
 NA = {}
 
